@@ -21,6 +21,13 @@ GATES = ("nontrivial", "resolved.runs", "runs.rho_changed", "policy.DualNorm", "
 
 
 def generate(rng, seed, index, tier):
+    if rng.random() < 0.06:
+        # the flow-integration solver raises its penalty on "penalty events"; same invariant per integration leg
+        spec, x0, y0 = gen.gen_problem(rng, str(rng.choice(["qp", "nlp"])), mmax=3)
+        if spec["m"] == 0:
+            spec, x0, y0 = gen.gen_problem(rng, "qp", mmax=3)
+        kw = {"iteration_limit": int(rng.choice([6, 15])), "rho": float(rng.choice([1e-2, 1.0, 1e4, 1e11, 1e13])), "display_interval": 1e18}
+        return gen.base_world(seed, ID, index, spec, x0, y0, kw, solver="integration", case={})
     fam = str(rng.choice(["qp", "nlp", "degenerate", "domain", "infeasible"], p=[0.3, 0.3, 0.15, 0.05, 0.2]))
     spec, x0, y0 = gen.gen_problem(rng, fam, mmax=4)
     if spec["m"] == 0 and rng.random() < 0.8:
@@ -54,5 +61,29 @@ def _nontrivial(ex, bump):
     return nt
 
 
+def _integration_case(world):
+    from ..runner import execute
+    from .common import V, small_sample
+
+    ex = execute(world)
+    stats = {"integration.runs": 1, "integration.legs": len(ex.int_rhos), "integration." + ex.outcome.split("@")[0]: 1}
+    viol = []
+    rs = ex.int_rhos
+    for t, r in enumerate(rs):
+        if not r > 0.0:
+            viol.append(V(ID, "positive", "integration leg %d used penalty %r" % (t, r), None, {"t": t, "policy": "integration"}))
+            break
+        if t > 0 and r < rs[t - 1]:
+            viol.append(V(ID, "monotone", "penalty decreased from %r to %r at integration leg %d" % (rs[t - 1], r, t), None, {"t": t, "policy": "integration"}))
+            break
+    changed = any(rs[i + 1] != rs[i] for i in range(len(rs) - 1))
+    if changed:
+        stats["integration.rho_changed"] = 1
+    keys = ["int:" + repr(rs)[:60]] if changed else []
+    return {"violations": viol, "stats": stats, "keys": keys, "executions": 1, "sample": small_sample(world, {"outcome": ex.outcome, "leg_penalties": rs[:8]})}
+
+
 def case(world):
+    if world.get("solver") == "integration":
+        return _integration_case(world)
     return run_case(world, ID, check_C16, key_fn=lambda ex: ex.params.penalty_update.name + ":" + ex.traj_digest()[:14], nontrivial_fn=_nontrivial)
